@@ -967,6 +967,7 @@ func (fr *Frame) execSelect(i *ssa.Select) {
 	vc.assume(fr.reach, and(sx("<=", lo, idx.T), sx("<", idx.T, num(int64(len(i.States))))))
 	okv := fr.mkVal(vc.fresh("sel.ok", SBool), types.Typ[types.Bool])
 	out := []*Val{idx, okv}
+	fr.anchorAsserts("select", "", i.Pos(), map[string]*Val{"idx": idx})
 	n := 2
 	for si, s := range i.States {
 		if s.Dir == types.RecvOnly {
